@@ -408,7 +408,7 @@ func (x *Exec) applyContract(st *State, fr *Frame, in *ssa.Call, callee *ssa.Fun
 	pkg := pkgOf(callee)
 	x.declareGhosts(st, ct)
 	pre := st.clone()
-	sc := &SpecCtx{x: x, st: pre, old: pre, vars: vars, pkg: pkg}
+	sc := &SpecCtx{x: x, st: pre, old: pre, vars: vars, pkg: pkg, maskN: pre.nr}
 	// implicit precondition: pointer receiver non-nil
 	if callee.Signature.Recv() != nil {
 		if _, isPtr := callee.Signature.Recv().Type().Underlying().(*types.Pointer); isPtr {
@@ -449,7 +449,7 @@ func (x *Exec) applyContract(st *State, fr *Frame, in *ssa.Call, callee *ssa.Fun
 	x.havocGhosts(st, ct)
 	// results
 	res := x.freshResult(st, in.Type())
-	post := &SpecCtx{x: x, st: st, old: pre, vars: map[string]Val{}, pkg: pkg}
+	post := &SpecCtx{x: x, st: st, old: pre, vars: map[string]Val{}, pkg: pkg, maskN: pre.nr}
 	for k, v := range vars {
 		post.vars[k] = v
 	}
